@@ -66,15 +66,11 @@ type recDB struct {
 	removed [][]byte // keys removed since last drain
 	puts    [][]byte
 
-	driver  int64
-	gateOn  bool
-	arrive  chan []byte   // background reader arrived at the gate with this key
-	release chan struct{} // driver lets it continue
+	g *gate
 }
 
-func newRecDB() *recDB {
-	return &recDB{inner: memorydb.New(), archive: map[string][]byte{}, present: map[string]struct{}{},
-		arrive: make(chan []byte), release: make(chan struct{}), driver: goid()}
+func newRecDB(g *gate) *recDB {
+	return &recDB{inner: memorydb.New(), archive: map[string][]byte{}, present: map[string]struct{}{}, g: g}
 }
 
 func (d *recDB) Put(key, val []byte) error {
@@ -89,13 +85,7 @@ func (d *recDB) Put(key, val []byte) error {
 }
 
 func (d *recDB) Get(key []byte) ([]byte, error) {
-	d.mu.Lock()
-	gate := d.gateOn
-	d.mu.Unlock()
-	if gate && goid() != d.driver {
-		d.arrive <- append([]byte(nil), key...)
-		<-d.release
-	}
+	d.g.park("get", key)
 	return d.inner.Get(key)
 }
 
@@ -111,12 +101,6 @@ func (d *recDB) Remove(key []byte) error {
 
 func (d *recDB) Close() error         { return nil }
 func (d *recDB) IsInterfaceNil() bool { return d == nil }
-
-func (d *recDB) setGate(on bool) {
-	d.mu.Lock()
-	d.gateOn = on
-	d.mu.Unlock()
-}
 
 func (d *recDB) drain() (removed [][]byte, puts [][]byte) {
 	d.mu.Lock()
@@ -306,6 +290,7 @@ type cfg struct {
 
 type stack struct {
 	c     cfg
+	g     *gate
 	db    *recDB
 	ewl   *ewlRec
 	tsm   data.StorageManager
@@ -316,7 +301,8 @@ type stack struct {
 }
 
 func newStack(c cfg, scratch string) (*stack, error) {
-	s := &stack{c: c, db: newRecDB(), ids: vtrace.NewInterner()}
+	s := &stack{c: c, g: newGate(), ids: vtrace.NewInterner()}
+	s.db = newRecDB(s.g)
 	holder := &holderRec{inner: hashesHolder.NewCheckpointHashesHolder(uint64(c.HolderMax), uint64(hasher.Size()))}
 	args := trie.NewTrieStorageManagerArgs{
 		DB:          s.db,
@@ -337,8 +323,8 @@ func newStack(c cfg, scratch string) (*stack, error) {
 	if err != nil {
 		return nil, err
 	}
-	s.tsm = tsm
-	tr, err := trie.NewTrie(tsm, marsh, hasher, uint(c.Level))
+	s.tsm = &tsmGate{StorageManager: tsm, g: s.g}
+	tr, err := trie.NewTrie(s.tsm, marsh, hasher, uint(c.Level))
 	if err != nil {
 		return nil, err
 	}
